@@ -319,14 +319,17 @@ Definition scale_arg (c : Qc) (a : arg) : arg :=
 Definition two_pi_fl : Qc := qc 7074237752028440 1125899906842624.
 Definition pi_fl : Qc := qc 3537118876014220 1125899906842624.
 
-(* TableLookup(tbl, cycles)(freq, phase), [cycles] exact *)
-Definition table_call (tbl : list Qc) (cycles : Qc) (freq phase : arg) (k : nat) : res :=
-  let len := nq (length tbl) in
-  let den := cycles * (1 + 1) * pi_fl in
-  if Qc_is0 den then ([], zde) else
-  let cl := len / den in
+(* TableLookup(tbl, cycles)(freq, phase) with the cycle length constant  cl = len / (cycles * 2 * pi)
+   given: exact when [cycles] is an exact rational, the rounded float for int / float cycles (then it is
+   supplied by the harness like the other baked-in float constants) *)
+Definition table_call_cl (tbl : list Qc) (cl : Qc) (freq phase : arg) (k : nat) : res :=
   res_map (lerp_call tbl) "IndexError"
-          (modulo_counter (scale_arg cl phase) (Num len) (scale_arg cl freq) k).
+          (modulo_counter (scale_arg cl phase) (Num (nq (length tbl))) (scale_arg cl freq) k).
+
+(* [cycles] an exact rational: the constant is computed without rounding *)
+Definition table_call (tbl : list Qc) (cycles : Qc) (freq phase : arg) (k : nat) : res :=
+  let den := cycles * (1 + 1) * pi_fl in
+  if Qc_is0 den then ([], zde) else table_call_cl tbl (nq (length tbl) / den) freq phase k.
 
 (* TableLookup.__getitem__(idx) *)
 Definition table_getitem (tbl : list Qc) (idx : Qc) : option Qc :=
